@@ -260,17 +260,48 @@ def _resolve_strict_optimizer_failures(
     return _env_flag_enabled(_STRICT_OPTIMIZER_FAILURES_ENV)
 
 
+def _snapshot_model_for_rollback(model: ir.Model) -> Optional[ir.Model]:
+    """Copy the graphs of ``model`` (tensors are shared) so a failed optimizer run can be undone."""
+    try:
+        snapshot = model.clone()
+    except Exception as exc:
+        _LOGGER.debug("optimizer rollback snapshot unavailable", exc_info=exc)
+        return None
+    for key, fn in model.functions.items():
+        # ``_attr_overrides`` is attached to the function object by FunctionScope.
+        if hasattr(fn, "_attr_overrides") and key in snapshot.functions:
+            try:
+                setattr(
+                    snapshot.functions[key],
+                    "_attr_overrides",
+                    object.__getattribute__(fn, "_attr_overrides"),
+                )
+            except Exception:
+                pass
+    return snapshot
+
+
 def _optimize_graph_with_failure_policy(
     model: ir.Model,
     *,
     strict_optimizer_failures: Optional[bool],
 ) -> None:
+    strict = _resolve_strict_optimizer_failures(strict_optimizer_failures)
+    # The passes rewrite the model in place, some of them in several steps, so a
+    # pass that raises half-way leaves a graph that is neither the input nor a
+    # valid rewrite. The non-fatal policy therefore falls back to the model as
+    # it was before optimization.
+    snapshot = None if strict else _snapshot_model_for_rollback(model)
     try:
         optimize_graph(model)
     except Exception as exc:
-        if _resolve_strict_optimizer_failures(strict_optimizer_failures):
+        if strict:
             raise
         _log_nonfatal_stage_failure("optimize_graph", exc)
+        if snapshot is not None:
+            model.graph = snapshot.graph
+            model.functions.clear()
+            model.functions.update(snapshot.functions)
 
 
 # Deprecated compatibility alias for TYPE_CHECKING-only legacy plugin imports.
